@@ -830,6 +830,9 @@ func main() {
 	defer out.Close()
 	if *fixp {
 		out.Put(fixPeriod())
+		for _, c := range fixCases(f.Seed, f.N) {
+			out.Put(c)
+		}
 		return
 	}
 	var cases []*Case
